@@ -46,12 +46,12 @@ pub fn sweep_cases(base: u64, index: u64, st: &mut GenStats) -> (Val, Vec<Case>)
                 out.push(Case::Fmt(base_case.clone()));
                 for sticky in [false, true] {
                     for k in 0..nchunks {
-                        out.push(Case::Fmt(FmtCase { sink: SinkPlan { fail_at_chunk: Some(k), capacity: None, sticky, reentrant_hi: None, reentrant_depth: None }, ..base_case.clone() }));
+                        out.push(Case::Fmt(FmtCase { sink: SinkPlan { fail_at_chunk: Some(k), capacity: None, sticky, reentrant_hi: None, reentrant_depth: None, reentrant_spec: None }, ..base_case.clone() }));
                     }
                     let step = (nbytes / 120).max(1);
                     let mut cap = 0;
                     while cap < nbytes {
-                        out.push(Case::Fmt(FmtCase { sink: SinkPlan { fail_at_chunk: None, capacity: Some(cap), sticky, reentrant_hi: None, reentrant_depth: None }, ..base_case.clone() }));
+                        out.push(Case::Fmt(FmtCase { sink: SinkPlan { fail_at_chunk: None, capacity: Some(cap), sticky, reentrant_hi: None, reentrant_depth: None, reentrant_spec: None }, ..base_case.clone() }));
                         cap += step;
                     }
                 }
